@@ -201,6 +201,59 @@ fn profile_keys_uncached(kind: &str, cap0: usize, profile: usize) -> Vec<i64> {
     }
 }
 
+/// hash a table computes for an integer key
+fn tab_hash(k: i64) -> u64 {
+    use cao_lang::prelude::Value;
+    let mut m: CaoHashMap<Value, ()> = CaoHashMap::with_capacity_in(4, Default::default()).unwrap();
+    m.insert(Value::Integer(k), ()).unwrap()
+}
+
+/// real keys whose scrambled hash has a given residue: model key i gets the first unused real key c >= 1 with
+/// scramble(c) % modulus == residues[i] (the home slot at every capacity dividing `modulus` is then residue % capacity)
+fn residue_keys(kind: &str, modulus: usize, residues: &[usize]) -> Vec<i64> {
+    thread_local! {
+        static BY_RES: RefCell<BTreeMap<(String, usize), Vec<Vec<i64>>>> = RefCell::new(BTreeMap::new());
+    }
+    let need = residues.len().max(1);
+    let table = BY_RES.with(|c| {
+        let mut c = c.borrow_mut();
+        let e = c.entry((kind.to_string(), modulus)).or_insert_with(|| {
+            let mut t: Vec<Vec<i64>> = vec![vec![]; modulus];
+            let mut k = 1i64;
+            while t.iter().any(|v| v.len() < NKEYS) && k < 2_000_000 {
+                let scr = match kind {
+                    "hm" => hm_hash(k).wrapping_mul(2654435769) as usize,
+                    "tab" => tab_hash(k).wrapping_mul(2654435769) as usize,
+                    _ => (k as u32).wrapping_mul(2654435769) as usize,
+                };
+                let r = scr % modulus;
+                if t[r].len() < NKEYS {
+                    t[r].push(k);
+                }
+                k += 1;
+            }
+            t
+        });
+        e.clone()
+    });
+    let _ = need;
+    if std::env::var("CV_DEBUG").is_ok() {
+        eprintln!("residue table {kind} mod {modulus}: {:?}", table.iter().map(|v| v.len()).collect::<Vec<_>>());
+    }
+    let mut used = vec![0usize; modulus];
+    let mut out = vec![];
+    for r in residues {
+        out.push(table[*r][used[*r]]);
+        used[*r] += 1;
+    }
+    let mut s = 3_000_003i64;
+    while out.len() < NKEYS {
+        out.push(s);
+        s += 1;
+    }
+    out
+}
+
 fn key_index(name: &str) -> usize {
     name.trim_start_matches('k').parse::<usize>().expect("model key name") - 1
 }
@@ -551,9 +604,127 @@ impl Sut for Ht {
 }
 
 pub fn make(kind: &str, cap0: usize, profile: usize, nkeys: usize) -> Box<dyn Sut> {
+    make_with(kind, cap0, profile_keys(kind, cap0, profile), nkeys)
+}
+
+// ------------------------------------------------------------------ CaoLangTable driven as a plain map (slot-level cases)
+struct Tab {
+    // field order matters: the guard writes to its object when dropped, so it must go first
+    t: cao_lang::vm::runtime::cao_lang_object::ObjectGcGuard,
+    vm: cao_lang::prelude::Vm<'static, ()>,
+    keys: Vec<i64>,
+    nkeys: usize,
+    nextv: u64,
+}
+
+impl Tab {
+    fn new(keys: Vec<i64>, nkeys: usize) -> Self {
+        let mut vm = cao_lang::prelude::Vm::new(()).unwrap();
+        let t = vm.init_table().unwrap();
+        Tab { t, vm, keys, nkeys, nextv: 1 }
+    }
+    fn proj(&self) -> J {
+        use cao_lang::prelude::Value;
+        let _ = &self.vm;
+        let t = self.t.as_table().unwrap();
+        let mut by_get: Vec<(usize, i64)> = vec![];
+        for i in 0..self.nkeys {
+            let k = Value::Integer(self.keys[i]);
+            let g = t.get(&k).copied();
+            if g.is_some() != t.contains(&k) {
+                return json!({"inconsistent": "get/contains disagree", "key": key_name(i)});
+            }
+            if let Some(Value::Integer(v)) = g {
+                by_get.push((i, v));
+            } else if g.is_some() {
+                return json!({"inconsistent": "a value that was never stored", "key": key_name(i)});
+            }
+        }
+        let mut by_iter: Vec<(usize, i64)> = vec![];
+        for (k, v) in t.iter() {
+            match (k, v) {
+                (Value::Integer(k), Value::Integer(v)) => match self.keys.iter().position(|x| x == k) {
+                    Some(i) => by_iter.push((i, *v)),
+                    None => return json!({"inconsistent": "iteration yields a key that was never inserted", "key": k}),
+                },
+                _ => return json!({"inconsistent": "iteration yields a foreign entry"}),
+            }
+        }
+        by_iter.sort();
+        if by_iter != by_get || t.len() != by_get.len() || t.is_empty() != by_get.is_empty() {
+            return json!({"inconsistent": {"iter": by_iter, "lookups": by_get, "len": t.len()}});
+        }
+        let mut o = Map::new();
+        let mut outk = Map::new();
+        for i in 0..self.nkeys {
+            outk.insert(key_name(i), json!(by_get.iter().filter(|(j, _)| *j == i).count()));
+        }
+        let outv: Vec<usize> = (1..self.nextv).map(|v| by_get.iter().filter(|(_, x)| *x == v as i64).count()).collect();
+        for (i, v) in by_get {
+            o.insert(key_name(i), json!(v));
+        }
+        json!({"m": obj_or_empty(o), "cl": {"has": false, "m": []}, "outv": outv, "outk": outk})
+    }
+}
+
+impl Sut for Tab {
+    fn exec(&mut self, op: &J) -> J {
+        use cao_lang::prelude::Value;
+        let name = op["op"].as_str().unwrap();
+        let kname = op["k"].as_str().unwrap_or("-");
+        let key = if kname == "-" { Value::Nil } else { Value::Integer(self.keys[key_index(kname)]) };
+        let id = |v: Option<Value>| -> Vec<i64> {
+            match v {
+                Some(Value::Integer(i)) => vec![i],
+                _ => vec![],
+            }
+        };
+        let fresh = Value::Integer(self.nextv as i64);
+        let t = self.t.as_table_mut().unwrap();
+        let (ok, vs): (bool, Vec<i64>) = match name {
+            "insert" => {
+                self.nextv += 1;
+                (t.insert(key, fresh).is_ok(), vec![])
+            }
+            "entry" => match t.get(&key).copied() {
+                Some(v) => (true, id(Some(v))),
+                None => {
+                    self.nextv += 1;
+                    (t.insert(key, fresh).is_ok(), id(Some(fresh)))
+                }
+            },
+            "remove" => match t.get(&key).copied() {
+                Some(v) => (t.remove(key).is_ok(), id(Some(v))),
+                None => {
+                    let _ = t.remove(key);
+                    (false, vec![])
+                }
+            },
+            "get" | "index" => match t.get(&key).copied() {
+                Some(v) => (true, id(Some(v))),
+                None => (false, vec![]),
+            },
+            "contains" => (t.contains(&key), vec![]),
+            "clear" => {
+                let ks: Vec<Value> = t.keys().to_vec();
+                let mut ok = true;
+                for k in ks {
+                    ok &= t.remove(k).is_ok();
+                }
+                (ok, vec![])
+            }
+            other => panic!("unknown op {other}"),
+        };
+        json!({"ret": {"ok": ok, "vs": vs}, "proj": self.proj()})
+    }
+}
+
+pub fn make_with(kind: &str, cap0: usize, reals: Vec<i64>, nkeys: usize) -> Box<dyn Sut> {
+    if kind == "tab" {
+        return Box::new(Tab::new(reals, nkeys));
+    }
     let alloc = FailAlloc::default();
     let l: L = Default::default();
-    let reals = profile_keys(kind, cap0, profile);
     match kind {
         "hm" => Box::new(Hm {
             m: Some(CaoHashMap::with_capacity_in(cap0, alloc.clone()).expect("with_capacity_in")),
@@ -582,6 +753,14 @@ pub fn replay_case(case: &J) -> J {
     let kind = case["kind"].as_str().expect("kind").to_string();
     let nkeys = case["nkeys"].as_u64().unwrap_or(6) as usize;
     let profiles = case["profiles"].as_u64().unwrap_or(3) as usize;
+    if let Some(h) = case.get("hashes").and_then(|h| h.as_object()) {
+        // a case of the slot-level model (OpenAddrGen): the real keys realise the residues the model chose
+        let modulus = case["mod"].as_u64().expect("mod") as usize;
+        let residues: Vec<usize> = (0..nkeys).map(|i| h[&key_name(i)].as_u64().expect("residue") as usize).collect();
+        let reals = residue_keys(&kind, modulus, &residues);
+        let k = kind.clone();
+        return replay_generic(case, &move |c: &J| make_with(&k, c["init"].as_u64().unwrap() as usize, reals.clone(), nkeys));
+    }
     let mut steps = 0;
     let mut diverged = 0;
     for p in 0..profiles {
